@@ -148,3 +148,9 @@ def ghost(eng, st, obj, name):
     """ghost attribute `name` of obj (written by the contract's ghost_on_return of the function that made obj)"""
     n = name.s.as_string() if hasattr(name, "s") and z3.is_string_value(name.s) else str(name)
     return SV(st.heap.get_field(get_ref(eng.as_val(st, obj).t), "$" + n), None)
+
+
+@spec_function()
+def tok_text(eng, st, t):
+    """the text of a lark Token (Token is a str subclass: what str(token) / float(token) read)"""
+    return sv_str(smt.TOKTEXT(_ref(eng, st, t)))
